@@ -10,7 +10,7 @@ from .. import gen, rng
 LEVEL = 'exploration'
 RULE = ("(a) Histories: a Hypothesis RuleBasedStateMachine per run picks storage class (Batch, Interval, Sequence, UniformReservoir, "
         "GeometricReservoir), capacity 1..6, store_targets and (Geometric) p in {0, 1, default, grid, arbitrary float}; every "
-        "update carries a unique serial number in x and in y (some arrivals come WITHOUT a target: update(x) / y=None), the library's random draws come from a Hypothesis-generated script "
+        "update carries a unique serial number in x and in y (some arrivals come WITHOUT a target: update(x) / y=None; in a quarter of the configurations some arrivals carry the very same dict OBJECT as the arrival before - a repeated reading - and count as arrivals of their own, told apart by their targets), the library's random draws come from a Hypothesis-generated script "
         "(extremes 0.0 and 1-2^-53 included). After EVERY update: stored serials pairwise distinct and a subset of arrivals, "
         "len == min(n, capacity) (Batch: n), targets aligned with instances or absent, Batch == stream, Interval == last size, "
         "Sequence == last one. (b) Exhaustive: every outcome of the draws (choice-point enumeration; uniforms on a 3-cell grid) for "
@@ -55,6 +55,20 @@ def _is_none(cfg, i):
     return bool(pat) and bool(pat[i % len(pat)])
 
 
+def _resent(cfg, i):
+    """Arrival i re-sends the very same dict OBJECT as arrival i-1 (a repeated reading, itertools.repeat, a replayed record): it is
+    an arrival of its own all the same."""
+    pat = cfg.get('resend')
+    return bool(pat) and i > 1 and bool(pat[i % len(pat)])
+
+
+def obj_id(cfg, i):
+    """Serial of the arrival whose dict object arrival i carries."""
+    while _resent(cfg, i):
+        i -= 1
+    return i
+
+
 def check_state(cfg, storage, n, prev_serials):
     """Invariant after n updates.  Returns (error key, detail) or None."""
     xs, ys = storage.get_data()
@@ -63,49 +77,86 @@ def check_state(cfg, storage, n, prev_serials):
     want_len = n if cap is None else min(n, cap)
     if len(storage) != want_len or len(xs) != want_len:
         return 'len', f'after {n} updates len(storage)={len(storage)}, len(xs)={len(xs)}, expected {want_len}'
-    serials = []
+    resend = bool(cfg.get('resend'))
+    arrivals = {}                       # object id -> serials of the arrivals that carried it
+    for i in range(1, n + 1):
+        arrivals.setdefault(obj_id(cfg, i), []).append(i)
+    ids = []
     for x in xs:
         if not (isinstance(x, dict) and set(x) == {'id', 'v'} and isinstance(x['id'], int)
-                and 1 <= x['id'] <= n and x['v'] == x['id'] * 10):
+                and x['id'] in arrivals and x['v'] == x['id'] * 10):
             return 'not-observed', f'stored instance {x!r} is not an observed one'
-        serials.append(x['id'])
-    if len(set(serials)) != len(serials):
-        return 'duplicate', f'an arrival is stored twice: {serials}'
+        ids.append(x['id'])
+    for i in set(ids):
+        if ids.count(i) > len(arrivals[i]):
+            return 'duplicate', f'an arrival is stored twice: {ids} (arrivals per object: { {k: len(v) for k, v in arrivals.items()} })'
     if cfg['st']:
         if len(ys) != len(xs):
             return 'targets-length', f'{len(xs)} instances but {len(ys)} targets'
+        seen = set()
         for x, y in zip(xs, ys):
+            if resend:
+                # every arrival has its own target: the target names the arrival, which must have carried this object - and only once
+                if not (isinstance(y, list) and len(y) == 2 and y[0] == 'y' and y[1] in arrivals[x['id']]):
+                    return 'targets-misaligned', f'instance {x["id"]} (arrivals {arrivals[x["id"]]}) stored with target {y!r}'
+                if y[1] in seen:
+                    return 'duplicate', f'arrival {y[1]} is stored twice'
+                seen.add(y[1])
+                continue
             want = None if _is_none(cfg, x['id']) else ['y', x['id']]
             if y != want:
                 return 'targets-misaligned', f'instance {x["id"]} stored with target {y!r}, it arrived with {want!r}'
     elif len(ys) != 0:
         return 'targets-kept', f'store_targets=False but {len(ys)} targets kept'
-    if cfg['cls'] == 'batch' and serials != list(range(1, n + 1)):
-        return 'batch-order', f'BatchStorage holds {serials} after {n} updates'
-    if cfg['cls'] in ('interval', 'sequence') and serials != list(range(max(1, n - cap + 1), n + 1)):
-        return 'window', f'{cfg["cls"]} (size {cap}) holds {serials} after {n} updates'
+    if cfg['cls'] == 'batch' and ids != [obj_id(cfg, i) for i in range(1, n + 1)]:
+        return 'batch-order', f'BatchStorage holds {ids} after {n} updates'
+    if cfg['cls'] in ('interval', 'sequence') and ids != [obj_id(cfg, i) for i in range(max(1, n - cap + 1), n + 1)]:
+        return 'window', f'{cfg["cls"]} (size {cap}) holds {ids} after {n} updates'
+    if resend and cfg['st'] and cfg['cls'] in ('batch', 'interval', 'sequence'):
+        want = list(range(1 if cap is None else max(1, n - cap + 1), n + 1))
+        if [y[1] for y in ys] != want:
+            return 'window', f'{cfg["cls"]} holds the targets of arrivals {[y[1] for y in ys]} after {n} updates, expected {want}'
     return None
+
+
+class Feeder:
+    """Produces the arrivals of a configuration: fresh dict objects, or - where the configuration says so - the previous OBJECT again."""
+
+    def __init__(self, cfg):
+        self.cfg = cfg
+        self.last = None
+
+    def send(self, storage, i):
+        cfg = self.cfg
+        if not _resent(cfg, i):
+            self.last = {'id': i, 'v': i * 10}
+        x = self.last
+        if _is_none(cfg, i) and not cfg.get('resend'):
+            if i % 2:
+                storage.update(x)
+            else:
+                storage.update(x, None)
+        else:
+            storage.update(x, ['y', i])
+
+    def newest_stored(self, storage, i):
+        xs, ys = storage.get_data()
+        if self.cfg.get('resend') and self.cfg['st']:
+            return any(y == ['y', i] for y in ys)
+        return any(x['id'] == obj_id(self.cfg, i) for x in xs)
 
 
 def drive(cfg, n, on_step=None):
     storage = make(cfg)
     replaced = False
-    prev = []
+    feeder = Feeder(cfg)
     for i in range(1, n + 1):
-        if _is_none(cfg, i):
-            if i % 2:
-                storage.update({'id': i, 'v': i * 10})
-            else:
-                storage.update({'id': i, 'v': i * 10}, None)
-        else:
-            storage.update({'id': i, 'v': i * 10}, ['y', i])
-        err = check_state(cfg, storage, i, prev)
+        feeder.send(storage, i)
+        err = check_state(cfg, storage, i, None)
         if err:
             return err, replaced
-        cur = [x['id'] for x in storage.get_data()[0]]
-        if i > (capacity(cfg) or 10 ** 9) and i in cur:
+        if i > (capacity(cfg) or 10 ** 9) and feeder.newest_stored(storage, i):
             replaced = True
-        prev = cur
     return None, replaced
 
 
@@ -151,6 +202,8 @@ def configs(draw):
     cfg['positional_ctor'] = draw(st.booleans())
     if draw(st.integers(0, 2)) == 0:
         cfg['none_targets'] = draw(st.lists(st.integers(0, 1), min_size=1, max_size=5))   # pattern of arrivals without a target
+    if 'none_targets' not in cfg and draw(st.integers(0, 3)) == 0:
+        cfg['resend'] = draw(st.lists(st.integers(0, 1), min_size=1, max_size=4).filter(any))   # arrivals that carry the previous dict OBJECT again
     if c == 'geometric':
         cfg['p'] = draw(st.one_of(st.sampled_from([None, 0, 1, 1.0, 0.0, 0.5, 0.25, 0.75]),
                                   st.floats(0, 1, allow_nan=False)))
@@ -175,17 +228,15 @@ class StorageMachine(RuleBasedStateMachine):
             self.storage = make(cfg)
         self.n = 0
         self.replaced = False
+        self.feeder = Feeder(cfg)
 
     @rule()
     def update(self):
         self.n += 1
         with rng.patched_random(self.src):
-            if _is_none(self.cfg, self.n):
-                self.storage.update({'id': self.n, 'v': self.n * 10})
-            else:
-                self.storage.update({'id': self.n, 'v': self.n * 10}, ['y', self.n])
+            self.feeder.send(self.storage, self.n)
         cap = capacity(self.cfg)
-        if cap is not None and self.n > cap and any(x['id'] == self.n for x in self.storage.get_data()[0]):
+        if cap is not None and self.n > cap and self.feeder.newest_stored(self.storage, self.n):
             self.replaced = True
 
     @invariant()
@@ -240,6 +291,8 @@ def run(ctx):
                             cfg['p'] = p
                         if stt and p in (None, 1):
                             cfg['none_targets'] = [1, 0, 0, 1]
+                        elif p in (None, 2 / 3) and k != 2:
+                            cfg['resend'] = [0, 1, 1]          # the same dict object arrives again (twice in a row)
                         case = {'cfg': cfg, 'n': k + extra, 'grid': 3}
                         res = run_enum(case)
                         ctx.record('enum', case, res)
